@@ -150,7 +150,8 @@ func tryDeserializeNode(t fataler, in []byte) (bool, bool) {
 }
 
 // receiver gives the trie object an input is decoded into. Which kind is a function of the input alone: a new trie,
-// one whose root was set to nil, one that has just refused a proof, or one that holds another trie already.
+// one whose root was set to nil, one that has just refused a proof, one that holds another trie already, or one that
+// has loaded an export without elements.
 var (
 	fixtureOnce            sync.Once
 	fixtureProof, fixtureX []byte
@@ -172,7 +173,9 @@ func receiver(in []byte) *wmpt.WeightedMerkleTrie {
 		k += int(in[len(in)/2])
 	}
 	tr := wmpt.New(nil, nil)
-	switch k % 4 {
+	switch k % 5 {
+	case 4:
+		_ = tr.Deserialize([]byte{0x81, 0x80}) // an export without elements (what an empty trie exports)
 	case 1:
 		tr.SetRoot(nil)
 	case 2:
